@@ -184,10 +184,13 @@ def _set_integer_constraints_from_physical_type(expression, physical_type, type_
     #
     # TODO(bolms): Add a scheme for defining integer bounds on user-defined
     # external types.
-    if type_size is None:
+    if type_size is None or not 1 <= type_size <= 1024:
         # If the type_size is unknown, then we can't actually say anything about the
         # minimum and maximum values of the type.  For UInt, Int, and Bcd, an error
-        # will be thrown during the constraints check stage.
+        # will be thrown during the constraints check stage.  The same goes for
+        # sizes far outside anything an integer type could support (zero or
+        # negative, or thousands of bits): computing 2**type_size for them is
+        # meaningless and, for huge sizes, does not terminate in reasonable time.
         expression.type.integer.minimum_value = "-infinity"
         expression.type.integer.maximum_value = "infinity"
         return
